@@ -234,6 +234,34 @@ class ProgGen:
             body += self.op('CALL') + u1(self.rng.choice(self.defined + [h]))
         self.defined.append(h)
         return self.op('DEF') + u1(h) + u2(len(body)) + body
+    def s_RECTRY(self, d):
+        """a (self- or mutually) recursive function whose recursive call sits inside a TRY - optionally under an IF on the
+        stack depth - and whose inner activation raises: the outer activation must resume where *it* was, with its own
+        remaining instructions (checks after the construct) still to run"""
+        rng = self.rng
+        op, P = self.op, self.P
+        h = rng.choice([0, 1, 2, 7]); h2 = h if rng.random() < .75 else (h + 1) % 256
+        def iff(b): return op('IF') + u2(len(b)) + b
+        def tri(a, b): return op('TRY_EXCEPT') + u2(len(a)) + a + u2(len(b)) + b
+        guard = rng.choice([op('DEPTH') + P(b'\x00') + op('EQUAL'),                      # recurse once, from the empty stack
+                            op('DEPTH') + P(b'\x00') + op('EQUAL') + op('NOT') + op('NOT'),
+                            op('DEPTH') + P(bytes([rng.randrange(1, 3)])) + op('LESS_OR_EQUAL')])
+        grow = P(rng.choice([b'\xaa', b'\x00', b'\xff\xff'])) * rng.randrange(1, 3)
+        call = op('CALL') + u1(h2)
+        raiser = lambda: rng.choice([op('FALSE') + op('VERIFY'), op('DEPTH') + P(b'\x01') + op('EQUAL') + op('NOT') + op('VERIFY'),
+                                     op('POP0') * 3, P(b'\x01') + P(b'\x00') + op('DIV_INTS'), op('CALL') + b'\xee', b''])
+        inner = iff(guard[:0] + grow + call) if rng.random() < .8 else grow + call
+        tbody = (guard if inner[:1] == op('IF') else b'') + inner + (raiser() if rng.random() < .5 else b'')
+        ebody = rng.choice([b'', P(b'\xee'), op('TRUE'), op('RETURN'), op('POP0')])
+        post = (raiser() if rng.random() < .6 else b'') + P(b'\x01') + rng.choice([op('FALSE') + op('VERIFY'), b'', op('TRUE') + op('VERIFY')]) + P(b'\x02')
+        body = tri(tbody, ebody) + post
+        if rng.random() < .2: body = iff(body) if False else body
+        out = op('DEF') + u1(h) + u2(len(body)) + body
+        if h2 != h:
+            b2 = rng.choice([call[:0] + op('CALL') + u1(h), raiser(), grow + op('CALL') + u1(h)])
+            out += op('DEF') + u1(h2) + u2(len(b2)) + b2
+        self.defined.append(h)
+        return out + op('CALL') + u1(h)
     def s_CALL(self, d):
         pre = b''
         if not self.defined and (self.clean or self.rng.random() < .5):
@@ -495,7 +523,7 @@ class ProgGen:
 
 
 FILLER = ['TRUE', 'FALSE', 'PUSH1', 'ADD_INTS', 'POP0', 'DUP', 'SIZE', 'DEPTH', 'WRITE_CACHE', 'READ_CACHE', 'RETURN', 'VERIFY']
-CONTROL = ['DEF', 'CALL', 'IF', 'IF_ELSE', 'EVAL', 'TRY_EXCEPT', 'LOOP', 'MERKLEVAL', 'TAPROOT']
+CONTROL = ['RECTRY', 'DEF', 'CALL', 'IF', 'IF_ELSE', 'EVAL', 'TRY_EXCEPT', 'LOOP', 'MERKLEVAL', 'TAPROOT']
 ALL_SNIPPETS = sorted(n[2:] for n in dir(ProgGen) if n.startswith('s_'))
 CLEAN_SNIPPETS = [n for n in ALL_SNIPPETS if n not in ('RAW', 'RETURN', 'SET_FLAG', 'EQUAL_VERIFY', 'CHECK_SIG_VERIFY',
                   'CHECK_MULTISIG_VERIFY', 'CHECK_TEMPLATE_VERIFY', 'CHECK_TIMESTAMP_VERIFY', 'CHECK_EPOCH_VERIFY',
